@@ -225,8 +225,36 @@ class EtaToDetyz(Contract):
         yield 'detz', Eq(res[1], rad * cosd(eta) + zc)
 
 
+def bounded_eta_roundtrip():
+    """the two conversions in floating point, including the boundary radius == 1 pixel that the reals model cannot
+    distinguish from its neighbourhood"""
+    import numpy as np
+    from xfab import detector as D
+
+    def f(rng):
+        eta = rng.choice([rng.uniform(0, 360), rng.uniform(0, 360), 0.0, 90.0, 180.0, 270.0, 360.0, 1e-7, 359.9999999])
+        rad = rng.choice([1.0, 1.0 + 1e-9, 1.5, rng.uniform(1, 3000), rng.uniform(1, 10)])
+        yc, zc = rng.choice([(0.0, 0.0), (rng.uniform(-2000, 2000), rng.uniform(-2000, 2000))])
+        c = D.eta_and_radpix_to_detyz(eta, rad, yc, zc)
+        eta2, rad2 = D.detyz_to_eta_and_radpix(c, yc, zc)
+        de = abs(eta2 - eta) % 360.0
+        de = min(de, 360.0 - de)
+        tol = 1e-6 + 1e-9 * (abs(yc) + abs(zc) + rad) / rad * 57.3
+        if not (de <= tol and abs(rad2 - rad) <= 1e-9 * (1 + abs(yc) + abs(zc) + rad) and 0 <= eta2 <= 360):
+            return {'eta': eta, 'radius': rad, 'dety_center': yc, 'detz_center': zc, 'eta_returned': float(eta2), 'radius_returned': float(rad2),
+                    'problem': 'detyz_to_eta_and_radpix(eta_and_radpix_to_detyz(eta, radius)) != (eta, radius)'}
+        c2 = D.eta_and_radpix_to_detyz(eta2, rad2, yc, zc)
+        # arccos near 0/180 degrees resolves eta to about sqrt(2 ulp) = 1.5e-8 rad only: allow that much on the arc
+        if np.abs(np.array(c2) - np.array(c)).max() > 3e-8 * rad + 1e-9 * (1 + abs(yc) + abs(zc)):
+            return {'eta': eta, 'radius': rad, 'dety_center': yc, 'detz_center': zc, 'problem': 'coordinates are not rebuilt'}
+    return f
+
+
 def units(tier):
-    return [FlipsUnit(tier), FuncUnit('detector', 'detyz_to_eta_and_radpix'), FuncUnit('detector', 'eta_and_radpix_to_detyz')]
+    return [FlipsUnit(tier), FuncUnit('detector', 'detyz_to_eta_and_radpix'), FuncUnit('detector', 'eta_and_radpix_to_detyz'),
+            BoundedUnit('detector.eta_radius_roundtrip_in_floats', bounded_eta_roundtrip(), 2000, 100000,
+                        '(eta, radius) -> (dety, detz) -> (eta, radius) in double precision, radius in {1, 1+1e-9, 1.5, random up to 3000}, '
+                        'eta incl. 0/90/180/270/360, any beam centre')]
 
 
 def main(tier, seed, write_baseline=False):
